@@ -27,7 +27,7 @@ ASSUMPTIONS = ["oracle: pbt/model.py (owner lookup by linear scan, str.partition
 def cases(draw, tier="quick"):
     big = tier == "thorough"
     d = draw(S.delimiters())
-    recs = draw(S.record_sets(delimiter=d, max_records=((20 if draw(st.integers(0, 5)) == 0 else 8) if big else 5), max_syn=5 if big else 4))
+    recs = draw(S.record_sets(delimiter=d, foreign_delimiters=True, max_records=((20 if draw(st.integers(0, 5)) == 0 else 8) if big else 5), max_syn=5 if big else 4))
     ps = S.all_prefixes(recs)
     alpha = S._minus(S.CURIE_ALPHA, d)
     pairs = [[p, "1"] for p in ps]
